@@ -2922,7 +2922,12 @@ func (a *Agent) TaskDispatch(RequestID uint32, CommandID uint32, Parser *parser.
 								ReadOne = true
 
 								if ListOnly {
-									Dir += fmt.Sprintf("%s%s\n", RootDirPath[:len(RootDirPath)-1], FileName)
+									// the root path ends with the search wildcard; an empty one has nothing to strip
+									RootDir := RootDirPath
+									if len(RootDir) > 0 {
+										RootDir = RootDir[:len(RootDir)-1]
+									}
+									Dir += fmt.Sprintf("%s%s\n", RootDir, FileName)
 								} else {
 									LastModified = fmt.Sprintf("%02d/%02d/%d  %02d:%02d", LastAccessDay, LastAccessMonth, LastAccessYear, LastAccessHour, LastAccessMinute)
 									if IsDir {
